@@ -782,6 +782,10 @@ def unit_seq(ctx):
     s3 = ctx.choose("step3", [None, "clear"] + (rots[:1] if quick else rots[:2]))
     f3 = ctx.choose("form3", (["matrix"] if quick else ["matrix", "align"]) if s3 not in (None, "clear") else ["-"])
     nwhere = ctx.choose("explicit-n", [None, "last"] if quick else [None, "last", "first"])
+    # what the user does with rotator.field after the first rotation: later rotations still start from the ORIGINAL field
+    meddle = ctx.choose("user-changes-the-rotated-field-after-step-1",
+                        ["nothing", "relabels its components", "overwrites its values and validity", "moves its mesh in place"]
+                        if (kind == "v-tracer" and s3 is None) or not quick else ["nothing"])
     steps = [(r1, f1), (s2, f2)] + ([(s3, f3)] if s3 is not None else [])
     mesh = make_mesh(INTERP_MESHES[mname])
     f, comp_axis = make_field(mesh, kind, perm, ctx.seed)
@@ -808,6 +812,19 @@ def unit_seq(ctx):
         do_rotate(rot, call, n)
         Q = call[3] if Q is None else call[3] @ Q  # later rotations applied after earlier ones
         n_last = n
+        if i == 0 and meddle != "nothing":
+            g1 = rot.field
+            try:
+                if meddle == "relabels its components":
+                    if g1.nvdim == 3:
+                        g1.vdims = ["u", "v", "w"]
+                elif meddle == "overwrites its values and validity":
+                    g1.array[...] = 0.0
+                    g1.valid[...] = False
+                else:
+                    g1.mesh.translate(tuple(float(e) for e in g1.mesh.region.edges), inplace=True)
+            except Exception as e:
+                ctx.note(f"meddling-refused:{type(e).__name__}")
     inst = ctx.key()
     g = rot.field
     ctx.observe(np.round(np.asarray(g.array, float) / o.vmax, 7) + 0.0, tuple(int(k) for k in g.mesh.n))
